@@ -322,8 +322,10 @@ class C12(Check):
             o2.trace_generic(np.zeros(npts), Hy.copy(), np.zeros(npts), np.zeros(npts), w)
             yr = np.array(o2.surface_group.y[-1], dtype=float)
             # paraxial chief-ray height on the actual image surface, at this wavelength, per unit of the field variable
+            # (the library's chief ray - real and paraxial alike - is the ray aimed at the centre of the entrance pupil
+            # of the primary wavelength, whatever the wavelength it is traced at)
             psw = GL.parax_sys(spec, w)
-            ybar, _ = psw.chief(spec['ftype'], mf)
+            ybar, _ = psw.chief(spec['ftype'], mf, aim=ps)
             ybar = float(ybar[-1])
             if spec['ftype'] == 'angle':
                 tm = math.tan(math.radians(mf))
@@ -358,7 +360,7 @@ class C12(Check):
         out.close('grid_real_points', np.asarray(gd.data['xr'], dtype=float), xr, atol=1e-12 * self.Lsc)
         out.close('grid_real_points', np.asarray(gd.data['yr'], dtype=float), yr, atol=1e-12 * self.Lsc)
         psw = GL.parax_sys(spec, w)
-        ybar = float(psw.chief(spec['ftype'], mf)[0][-1])
+        ybar = float(psw.chief(spec['ftype'], mf, aim=ps)[0][-1])
         if spec['ftype'] != 'angle':
             xp, yp = ybar * HX, ybar * HY
         else:
